@@ -139,9 +139,10 @@ def inline_helpers(pkg, fn, keep=(), max_rounds=4):
                 if any(pkg.own_method(c, f.attr) is not None for c in pkg.subclasses(cls)):
                     return None, False
                 return k[1][0], True
-        if isinstance(f, ast.Name) and f.id in pkg.funcs and f.id not in keep:
-            if pkg.func_module.get(f.id) == getattr(fn, "_gs_module", None):
-                return pkg.funcs[f.id], False
+        if isinstance(f, ast.Name) and f.id not in keep:
+            fk_ = pkg.module_funcs.get(getattr(fn, "_gs_module", None), {}).get(f.id)
+            if fk_ is not None:
+                return pkg.funcs[fk_], False
         return None, False
 
     def subst_body(callee, call, is_method):
